@@ -36,8 +36,8 @@ TRUSTED = ["the independent definite-assignment analysis below"]
 ASSUMPTIONS = ["bounded: enumerated specification family; exhaustive only for that family"]
 
 API = {"Tensor", "Fiber", "Metrics", "Traffic", "Format", "Compute", "createCanvas", "displayCanvas", "addActivity",
-       "SkipAheadIntersector", "TwoFingerIntersector", "LeaderFollowerIntersector", "BinarySearchIntersector",
-       "canvas", "timestamps"}
+       "SkipAheadIntersector", "TwoFingerIntersector", "LeaderFollowerIntersector", "BinarySearchIntersector"}
+# (`canvas`, `timestamps` and `metrics` are bound by the emitted program itself: they are not API names)
 
 
 def user_names(txt):
@@ -223,7 +223,39 @@ def _family(tier):
     out.append(("one intersector bound to two ranks", "metrics", SHARED_INTERSECTOR))
     from props import hoist_family
     out += [(n_, "plain", y_) for n_, y_ in hoist_family.specs(tier, only_well_ordered=False)]
+    # generated accelerator family (metrics mode), display family of C16 (spacetime mode), hand-written cascades of C05
+    from props import accel_family, C16
+    out += [(n_, "metrics", y_) for n_, y_ in accel_family.specs(tier)]
+    fam16 = C16.family(tier)
+    out += [("display %s" % (meta,), "plain", y_) for _b, y_, meta in (fam16 if tier == "thorough" else fam16[::2])]
+    out += [(n_, "plain", y_) for n_, y_ in cascade.EXTRA_CASCADES]
+    out.append(("cascade whose second Einsum alone is displayed with slip", "plain", SLIP_SECOND))
     return out
+
+
+SLIP_SECOND = """
+einsum:
+  declaration:
+    A: [K, M]
+    B: [K, N]
+    T: [M, N]
+    Z: [M, N]
+  expressions:
+    - T[m, n] = A[k, m] * B[k, n]
+    - Z[m, n] = T[m, n] * A[k, m]
+mapping:
+  loop-order:
+    T: [K, M, N]
+    Z: [K, M, N]
+  spacetime:
+    T:
+      space: [M]
+      time: [K, N]
+    Z:
+      space: [M]
+      time: [K, N]
+      opt: slip
+"""
 
 
 SHARED_INTERSECTOR = """
